@@ -13,5 +13,6 @@ require (
 	github.com/btcsuite/btcd v0.0.0-20190629003639-c26ffa870fd8
 	github.com/golang/snappy v0.0.1
 	github.com/lianxiangcloud/linkchain v0.0.0-00010101000000-000000000000
+	github.com/syndtr/goleveldb v1.0.0
 	github.com/xunleichain/tc-wasm v0.3.5
 )
